@@ -166,6 +166,24 @@ class IterDsState(tud.IterableDataset):
             self.t = sd["t"].clone()
 
 
+class IterBump(IterDsState):
+    """Like IterDsState, plus a generation counter that load_state_dict bumps IN PLACE in the dict it is handed
+    (datasets that migrate / normalise the loaded dict do this); state_dict reports the bumped value."""
+
+    def __init__(self, sizes, fail=()):
+        super().__init__(sizes, fail)
+        self.gen = 0
+
+    def state_dict(self):
+        return {"i": self.i, "done": self.done, "gen": self.gen}
+
+    def load_state_dict(self, sd):
+        sd["gen"] = sd.get("gen", 0) + 1
+        self.i = sd["i"]
+        self.done = sd["done"]
+        self.gen = sd["gen"]
+
+
 class _StatefulIt:
     def __init__(self, ds, w):
         self.ds, self.w, self.i = ds, w, 0
@@ -233,6 +251,48 @@ class IterSelfIter(tud.IterableDataset):
         self.done = sd["done"]
 
 
+class _EagerIt:
+    def __init__(self, ds, w, start):
+        self.ds, self.w, self.pos = ds, w, start
+
+    def __iter__(self):
+        return self
+
+    def __next__(self):
+        if self.pos >= self.ds.sizes[self.w]:
+            self.ds.done = True
+            raise StopIteration
+        idx = self.pos
+        self.pos += 1
+        self.ds.i = self.pos
+        self.ds.fail.check(1000 * self.w + idx)
+        return 1000 * self.w + idx
+
+
+class IterDsEager(tud.IterableDataset):
+    """Stateful dataset whose __iter__ builds a separate (non-stateful) iterator EAGERLY from the
+    dataset's current position: the dataset state must be restored before iter(dataset) is called."""
+
+    def __init__(self, sizes, fail=()):
+        self.sizes = list(sizes)
+        self.i = 0
+        self.done = False
+        self.fail = FailPlan(fail)
+
+    def __iter__(self):
+        if self.done:
+            self.i = 0
+            self.done = False
+        return _EagerIt(self, _wid()[0], self.i)
+
+    def state_dict(self):
+        return {"i": self.i, "done": self.done}
+
+    def load_state_dict(self, sd):
+        self.i = sd["i"]
+        self.done = sd["done"]
+
+
 class PlainSampler(tud.Sampler):
     """A user sampler without state (the loader must skip ahead)."""
 
@@ -280,7 +340,7 @@ class StatefulSampler(tud.Sampler):
         self.done = sd["done"]
 
 
-ITER_KINDS = ["iter_plain", "iter_readme", "iter_ds_state", "iter_it_state", "iter_selfiter", "iter_inplace"]
+ITER_KINDS = ["iter_plain", "iter_readme", "iter_ds_state", "iter_it_state", "iter_selfiter", "iter_inplace", "iter_ds_eager"]
 MAP_KINDS = ["map", "map_stateful"]
 
 
@@ -308,6 +368,10 @@ def make_dataset(cfg):
         return IterItState(sizes, fail)
     if k == "iter_selfiter":
         return IterSelfIter(sizes, fail)
+    if k == "iter_ds_eager":
+        return IterDsEager(sizes, fail)
+    if k == "iter_bump":
+        return IterBump(sizes, fail)
     raise ValueError(k)
 
 
